@@ -21,7 +21,7 @@ sys.path.insert(0, os.path.join(HERE, 'tools'))
 from mutant_catalog import MUTANTS   # noqa: E402
 
 
-def run_one(m, props, tier, scale):
+def run_one(m, props, tier, scale, relation=None):
     tmp = tempfile.mkdtemp(prefix='regions-mut-')
     try:
         subprocess.run(['rsync', '-a', '--exclude', '__pycache__',
@@ -42,7 +42,9 @@ def run_one(m, props, tier, scale):
             env = dict(os.environ, VERIF_REPO=tmp)
             t0 = time.time()
             r = subprocess.run([os.path.join(HERE, 'check'), p, '--tier', tier,
-                                '--no-evidence', '--scale', str(scale)],
+                                '--no-evidence', '--scale', str(scale)]
+                               + (['--relation', relation.replace(
+                                   'Cxx', p)] if relation else []),
                                env=env, stdout=subprocess.PIPE,
                                stderr=subprocess.STDOUT, text=True)
             keys = re.findall(r'finding-key: (.*?) ::', r.stdout)
@@ -64,6 +66,7 @@ def main():
     ap.add_argument('-m', '--mutant', action='append')
     ap.add_argument('--tier', default='quick')
     ap.add_argument('--scale', type=float, default=1.0)
+    ap.add_argument('--relation', help="e.g. 'Cxx.read@guided'")
     a = ap.parse_args()
     n_missed = 0
     for m in MUTANTS:
@@ -72,7 +75,7 @@ def main():
         props = [p for p in m['props'] if not a.props or p in a.props]
         if not props:
             continue
-        res = run_one(m, props, a.tier, a.scale)
+        res = run_one(m, props, a.tier, a.scale, a.relation)
         for p, r in res.items():
             print(f"{m['id']:<28} {p}  {r}", flush=True)
             if not r.startswith('DETECTED'):
